@@ -603,23 +603,7 @@ func c08FlagCover(c *core.Ctx, R string) {
 }
 
 func c08ListenerBeforeReader(c *core.Ctx) {
-	const R = "C08.6"
-	c.Rule(R, "listener-before-reader (typestate): a transport's reader goroutine must not be started before its owner has attached the packet listener; on the path CreateTransport → MaybeUpgrade the `go w.message()` of the constructor precedes transport.On(\"packet\", …), so a probe already on the wire is emitted to nobody and lost")
-	for _, k := range []string{"transports.(*websocket).Construct", "transports.(*webTransport).Construct"} {
-		u := c.Fn(R, k)
-		if u == nil {
-			continue
-		}
-		started := false
-		var pos token.Pos = u.Pos()
-		for _, cl := range u.Calls() {
-			if cl.Go && strings.HasSuffix(cl.Key, ").message") {
-				started = true
-				pos = cl.Pos()
-			}
-		}
-		c.Check(R, k+"/go-message-before-listener", pos, !started, "the reader goroutine is started by the constructor, i.e. before any owner can attach its packet listener")
-	}
+	readerStartedByConsumer(c, "C08.6")
 }
 
 // concludeWon: guard "conclude() returned want" — the claim of an upgrade
